@@ -207,8 +207,11 @@ fn fresh_run(
         let outcome = exec::fresh_process(&resources, &opts);
         (outcome, store.snapshot())
     });
-    // (real file system: back into the scratch directory of the history)
-    exec::go_home();
+    // real file system: back into the scratch directory of the history (which holds
+    // `CWD_LOCK`; histories of the other back ends must not touch the working directory)
+    if backend == Backend::RealLib {
+        exec::go_home();
+    }
     result
 }
 
